@@ -331,6 +331,10 @@ func c20Scenarios(thorough bool) []*Scenario {
 		{Name: "V1q one change, connected; one crash", Cfg: cfg, Init: connected, Requests: []SetReqOrCall{a1}, CrashBudget: 1},
 		{Name: "V1o two changes of one path, target not connected (commits only); one crash", Cfg: cfg, Requests: []SetReqOrCall{a1, a2}, CrashBudget: 1},
 		{Name: "V1i two changes of one path, connected; one interleaving", Cfg: cfg, Init: connected, Requests: []SetReqOrCall{a1, a2}, InterleaveBudget: 1},
+		{Name: "V1h two changes of one path, connected; one step split (parked before any of its calls while up to 3 other transitions happen)", Cfg: cfg, Init: connected, Requests: []SetReqOrCall{a1, a2}, HoldBudget: 1, HoldDepth: 3},
+		{Name: "V6p one change applied before the exploration starts, then connection lost and re-established; one step split", Cfg: cfg, Init: connected,
+			Prefix: []func(w *World) *Call{a1.Call},
+			Faults: []FaultSpec{faultConnDown("T1"), faultConnUp("T1")}, FaultBudget: 2, HoldBudget: 1, HoldDepth: 4},
 		{Name: "V2o change and its rollback, target not connected (commits only); one crash", Cfg: cfg, Requests: []SetReqOrCall{a1, rb(1)}, CrashBudget: 1},
 		{Name: "V2i change and its rollback, connected; one interleaving", Cfg: cfg, Init: connected, Requests: []SetReqOrCall{a1, rb(1)}, InterleaveBudget: 1},
 		{Name: "V3 two changes, rollback of the second then of the first, connected", Cfg: cfg, Init: connected, Requests: []SetReqOrCall{a1, a2, rb(2), rb(1)}},
@@ -357,6 +361,8 @@ func c20Scenarios(thorough bool) []*Scenario {
 	}
 	if thorough {
 		scs = append(scs,
+			&Scenario{Name: "V6h one change, connection lost and re-established; one step split", Cfg: cfg, Init: connected, Requests: []SetReqOrCall{a1},
+				Faults: []FaultSpec{faultConnDown("T1"), faultConnUp("T1")}, FaultBudget: 2, HoldBudget: 1, HoldDepth: 4, MaxStates: 1500000},
 			&Scenario{Name: "V1 two changes of one path, connected; one crash", Cfg: cfg, Init: connected, Requests: []SetReqOrCall{a1, a2}, CrashBudget: 1},
 			&Scenario{Name: "V2 change and its rollback, connected; one crash", Cfg: cfg, Init: connected, Requests: []SetReqOrCall{a1, rb(1)}, CrashBudget: 1},
 			&Scenario{Name: "V6r two changes, device restart", Cfg: cfg, Init: connected, Requests: []SetReqOrCall{a1, a2o},
